@@ -128,6 +128,8 @@ def finish(prop, tier, seed, units, results, wall, verbose=False, partial=False)
     print('%s %s: %d/%d unbounded obligations discharged %s; bounded stand-in %d/%d; %d paths; %.1fs wall; exit %d'
           % (prop, tier, n_dis, n_obl, by_backend, sum(1 for r in bounded_recs if r['verdict'] == 'proved'), len(bounded_recs),
              sum(r['paths'] for r in results), wall, exit_code))
+    slow = sorted(results, key=lambda r: -r['wall'])[:3]
+    print('  slowest tasks: ' + '; '.join('%s[%s|%s] %.1fs' % (r['unit'], r['case'], r['mode'], r['wall']) for r in slow))
     if verbose:
         for rec in all_recs:
             print('  %-9s %-8s %-16s %6.2fs %s' % (rec['mode'], rec['verdict'], rec['backend'], rec['time_s'], rec['name']))
